@@ -421,8 +421,14 @@ func (w *World) Dump(ctx sdk.Context) M {
 		if err == nil {
 			apyN = decN(apy)
 		}
+		// the fishmen list is read from the parameter store itself (chain state), not through the keeper's getter: the
+		// getter is code under test, and the list is the one parameter a modelled operation (govfishmen) changes
+		fishInfo := p.FishmenInfo
+		if sub, found := app.ParamsKeeper.GetSubspace(nodetypes.ModuleName); found && sub.Has(ctx, nodetypes.KeyFishmenInfo) {
+			sub.Get(ctx, nodetypes.KeyFishmenInfo, &fishInfo)
+		}
 		fish := []int{}
-		for _, f := range strings.Split(p.FishmenInfo, ",") {
+		for _, f := range strings.Split(fishInfo, ",") {
 			if f != "" {
 				fish = append(fish, w.Addr.ID(f))
 			}
